@@ -31,6 +31,15 @@ def parseTok (t : String) (maxBody : Nat) : Option BOp :=
       | _ => none
     | 'u' => (parseTy r).map BOp.use
     | 't' => (parseTy r).map BOp.take
+    | 'l' => (parseTy r).map BOp.use
+    | 'b' => (parseTy r).map BOp.use
+    | 'd' =>
+      match r.splitOn "." with
+      | [a, b] => do
+        let ty ← parseTy a
+        let v ← (parseNat b).filter (· < 10)
+        pure (BOp.update ty v)
+      | _ => none
     | 'e' => ((parseNat r).filter (· < maxBody)).map BOp.effect
     | 'E' => ((parseNat r).filter (· < maxBody)).map BOp.effect
     | 'I' => ((parseNat r).filter (· < maxBody)).map BOp.effect
